@@ -97,8 +97,9 @@ class Case17:
                                                   "Z": "itemspace-node"}.get(rk, "cells")}
             if self.errmode != "formula-error":
                 tags.add("err-" + self.errmode)
-            hist_types = [t for t in self.hist_types]
-            if "H" in hist_types or incall or pending_before:
+            hist_types = list(self.hist_types)
+            if incall or pending_before:
+                # a formula handled a failure since the executor last reported one
                 tags.add("handled-unwind-pending")
             if incall:
                 tags.add("handled-in-same-call")
@@ -147,8 +148,8 @@ class Case17:
         if got_nodes != exp_nodes:
             if got_nodes[:len(exp_nodes)] == exp_nodes:
                 extra = got[len(exp_nodes):]
-                pend = {lab for labs, _open in (pending_before_flat(pending_before) + incall) for lab in labs}
-                any_open = any(o for _l, o in (pending_before_flat(pending_before) + incall))
+                pend = {lab for labs, _open in (pending_before + incall) for lab in labs}
+                any_open = any(o for _l, o in (pending_before + incall))
                 if all(ln == 0 for _lab, ln in extra) and (all(lab in pend for lab, _ in extra) or any_open) and pend:
                     self.fail("chk-traceback-extra-tail",
                               "traceback continues after the raising element with %r: elements unwound earlier by an "
@@ -232,10 +233,6 @@ class Case17:
 
     def close(self):
         mx.set_recursion(DEFAULT_LIMIT)
-
-
-def pending_before_flat(p):
-    return list(p)
 
 
 # ====================================================================== case generation
@@ -329,21 +326,29 @@ def part_exhaustive(res, tier):
     return True
 
 
+def case_s(res, item):
+    k, n, deps, p, fkind, seed = item
+    reset()
+    rnd = random.Random(seed)
+    spec, small, errmode, ph = make_spec(n, deps, p, fkind, rnd, extra=True)
+    run_model(res, spec, small, errmode, ph, ("S", k, spec.key()), rnd, max_seq=12)
+
+
 def part_sampled(res, tier):
-    import time
-    limit = 60 if tier == "quick" else 4000
-    count = 0
-    while count < limit and not res.expired() and time.time() - res.t0 < res.budget_s * 0.92:
+    """The sample is drawn up front from res.rng (same seed, same cases)."""
+    count = 60 if tier == "quick" else 4000
+    items = []
+    for k in range(count):
         n = res.rng.choice([4, 5])
         deps = [[i for i in range(j) if res.rng.random() < 0.5] for j in range(n)]
-        p = res.rng.randrange(n)
-        fkind = res.rng.choice(MAIN_KINDS + ["kbi"])
-        reset()
-        rnd = random.Random(res.rng.getrandbits(32))
-        spec, small, errmode, ph = make_spec(n, deps, p, fkind, rnd, extra=True)
-        run_model(res, spec, small, errmode, ph, ("S", count, spec.key()), rnd, max_seq=12)
-        count += 1
-    return count
+        items.append((k, n, deps, res.rng.randrange(n), res.rng.choice(MAIN_KINDS + ["kbi"]), res.rng.getrandbits(32)))
+    if tier != "quick":
+        return run_parallel(res, case_s, items, chunk=16, reserve=0.05)
+    for it in items:
+        if res.expired():
+            return False
+        case_s(res, it)
+    return True
 
 
 def run(res, tier, seed):
